@@ -38,7 +38,10 @@ def model():
 def _digests(prop, tier, seed, n):
     mod = harness.load_check(prop)
     out = []
-    for i in range(min(n, mod.count(tier))):
+    total = mod.count(tier)
+    # half of the sample from the start of the index space (enumerations), half spread over the rest (seeded part)
+    idx = sorted(set(list(range(min(n // 2, total))) + [int(k * (total - 1) / max(1, n // 2 - 1)) for k in range(n // 2)]))
+    for i in idx:
         res = harness.run_one(mod, mod.make(i, seed, tier))
         out.append((res.digest, res.isig, sorted(json.dumps(v.to_json(), sort_keys=True) for v in res.violations),
                     res.harness_error is not None))
